@@ -1382,13 +1382,17 @@ impl<'a> Rf<'a> {
                     }
                     let em = self.emitted.len();
                     let lg = self.log.len();
+                    let ws = self.ws_ranges.len();
                     let r = self.ev(a, p, env);
                     match r {
                         Ok((v, e)) if self.emitted.len() == em => return Ok((v, e)),
                         _ => {
-                            // a failed retry, or one that needed its own recoveries, is discarded
+                            // a failed retry, or one that needed its own recoveries, is discarded -- together with the
+                            // with_state invocations it made (a retry that SUCCEEDED with emissions does not go through the
+                            // failure path of `ev`, which would have dropped them)
                             self.emitted.truncate(em);
                             self.log.truncate(lg);
+                            self.ws_ranges.truncate(ws);
                             self.alt = None;
                         }
                     }
